@@ -3,6 +3,7 @@ package sim
 import (
 	"fmt"
 	"sort"
+	"strings"
 
 	sdkmath "cosmossdk.io/math"
 	sdk "github.com/cosmos/cosmos-sdk/types"
@@ -340,6 +341,18 @@ func (m *c05Model) check(r *Run, c *bridgeChecks, s *Step, o *Outcome) []Violati
 				}
 				payer := w.KeyByName(t.Tx.S).Acc()
 				denom := t.Tx.A.Str("denom")
+				// the added fee is paid in the token of the queued transfer
+				if rec, ok := mc.xfers[t.Tx.A.U64("id")]; ok {
+					paid := strings.TrimPrefix(denom, ch.Name)
+					if denom == "FX" {
+						if tk := ch.tokenByBase("FX"); tk != nil {
+							paid = ExtAddrStr(ch.Name, tk.Contract)
+						}
+					}
+					if paid != rec.Contract {
+						vs = append(vs, viol("fee-increase-exact", "fee-paid-in-other-token", "%s: fee of transfer %d (token %s) raised by paying %s", ch.Name, rec.ID, rec.Contract, denom))
+					}
+				}
 				before := c.c04.balBefore(payer, denom)
 				after := w.App.BankKeeper.GetBalance(w.Ctx(), payer, denom).Amount
 				if !before.Sub(after).Equal(t.Tx.A.SdkInt("fee")) {
@@ -397,6 +410,14 @@ func (m *c05Model) check(r *Run, c *bridgeChecks, s *Step, o *Outcome) []Violati
 			} else {
 				rec.State = "refunded" // timeout refund (C06 judges whether it was justified)
 				r.Probe("bridge-call-timeout-refund")
+				// ... but never after its successful execution has been observed
+				for _, pv := range []*ChainView{pre, post} {
+					for _, pn := range pv.SortedPending() {
+						if rc, ok := pv.Pending[pn].(*cctypes.MsgBridgeCallResultClaim); ok && rc.Nonce == n && rc.Success {
+							vs = append(vs, viol("settled-once", "bridge-call-refunded-after-observed-success", "%s: outgoing bridge call %d was refunded although its successful execution had been observed (result parked as pending claim %d)", ch.Name, n, pn))
+						}
+					}
+				}
 			}
 			r.Nontrivial = true
 		}
